@@ -1195,6 +1195,20 @@ func (en *Env) specialMethod(recv Val, name string, args []Expr) (Val, bool) {
 		case "IsValid":
 			return boolVal(not(eq(app("(_ extract 129 128)", recv.L[0]), "#b00"))), true
 		}
+	case "net/netip.Prefix":
+		// a Prefix is (ip, bitsPlusOne)
+		if len(recv.L) >= 2 {
+			switch name {
+			case "Addr":
+				if obj, _, _ := types.LookupFieldOrMethod(recv.T, false, nil, "Addr"); obj != nil {
+					if f, ok := obj.(*types.Func); ok {
+						return Val{T: f.Type().(*types.Signature).Results().At(0).Type(), L: []string{recv.L[0]}}, true
+					}
+				}
+			case "Bits":
+				return Val{T: types.Typ[types.Int], L: []string{app("bvsub", "((_ zero_extend 56) "+recv.L[1]+")", bvLit(1, 64))}}, true
+			}
+		}
 	case "time.Time":
 		switch name {
 		case "Before":
